@@ -6,12 +6,15 @@
 //   T maj min          ToString -> hex ; S maj min  operator<< -> hex
 //   C a b c d          the six comparison operators on (a,b) vs (c,d) -> "eq ne lt gt le ge"
 //   V maj min          IsValid
+//   G on|off           install / remove a global C++ locale with digit grouping ("1,000") — ToString must not depend on it
+//   CR ra a b rb c d   the six operators on objects built from raw bytes (reserved, major, minor) as read off the wire
 #include <csetjmp>
 #include <csignal>
 #include <cstdio>
 #include <cstdlib>
 #include <cstring>
 #include <iostream>
+#include <locale>
 #include <sstream>
 #include <string>
 #include <sys/mman.h>
@@ -33,6 +36,19 @@ extern "C" void __asan_set_error_report_callback(void (*)(const char*));
 static volatile int asan_hit = 0;
 static void asan_cb(const char*) { asan_hit = 1; }
 #endif
+
+struct Grouping : std::numpunct<char> {
+  char do_thousands_sep() const override { return ','; }
+  std::string do_grouping() const override { return "\3"; }
+};
+
+static DataVersion from_raw(int r, int a, int b) {
+  unsigned char raw[4] = {(unsigned char)r, (unsigned char)a, (unsigned char)(b & 0xFF), (unsigned char)((b >> 8) & 0xFF)};
+  DataVersion v;
+  static_assert(sizeof(DataVersion) == 4, "DataVersion is 4 bytes on the wire");
+  memcpy(&v, raw, 4);
+  return v;
+}
 
 static std::string unhex(const std::string& h) {
   std::string out;
@@ -107,6 +123,17 @@ int main() {
       if (cmd == "T") printf("%s\n", tohex(ToString(v)).c_str());
       else if (cmd == "S") { std::ostringstream os; os << v; printf("%s\n", tohex(os.str()).c_str()); }
       else printf("%d\n", v.IsValid() ? 1 : 0);
+    } else if (cmd == "G") {
+      std::string w;
+      is >> w;
+      if (w == "on") std::locale::global(std::locale(std::locale::classic(), new Grouping));
+      else std::locale::global(std::locale::classic());
+      printf("ok\n");
+    } else if (cmd == "CR") {
+      int ra, a, b, rb, c, d;
+      is >> ra >> a >> b >> rb >> c >> d;
+      DataVersion x = from_raw(ra, a, b), y = from_raw(rb, c, d);
+      printf("%d %d %d %d %d %d\n", x == y, x != y, x < y, x > y, x <= y, x >= y);
     } else if (cmd == "C") {
       int a, b, c, d;
       is >> a >> b >> c >> d;
